@@ -486,6 +486,25 @@ structure Flags where
 
 def pinned : Flags := { restoreBuffer := false, compact := pinnedFlags }
 
+/-- the flags that describe the CURRENT tree of /repo (flip a field here when the corresponding
+    `fix:` commit lands; the driver and the "current tree" theorems follow) -/
+def current : Flags := pinned
+
+/-- the manifest references only complete objects (and is itself complete) -/
+def refsComplete (st : Store) : Bool :=
+  match NMap.get st manifestName with
+  | none => true
+  | some (.manifest m) =>
+    m.segments.all (fun s => match NMap.get st (segName s.id) with
+      | some (.segment _) => true
+      | _ => false) &&
+    (match m.checkpoint with
+     | none => true
+     | some c => match NMap.get st (chkName c.name) with
+       | some (.checkpoint _ _) => true
+       | _ => false)
+  | some _ => false
+
 /-- process + store + ghost record of what was confirmed -/
 structure Sys where
   w : World
